@@ -149,7 +149,7 @@ func (env *specEnv) eval(e SExpr) TV {
 				env.fail("index on slice of unknown element type")
 			}
 			es := u.sortOf(st.Elem())
-			return TV{T: fmt.Sprintf("(select (select %s (sref %s)) (+ (soff %s) %s))", env.heap(u.arrKey(st.Elem())), b.T, b.T, i.T), Sort: es, Typ: st.Elem()}
+			return TV{T: fmt.Sprintf("(select (select %s (sref %s)) (sidx (soff %s) %s))", env.heap(u.arrKey(st.Elem())), b.T, b.T, i.T), Sort: es, Typ: st.Elem()}
 		case "Int":
 			if b.Typ != nil {
 				if mt, ok := b.Typ.Underlying().(*types.Map); ok {
@@ -514,6 +514,30 @@ func (env *specEnv) evalCall(x *SCall) TV {
 		}
 		md, _, ks, _ := e.mapKeys(m.Typ)
 		return TV{T: fmt.Sprintf("(and (not (= %s 0)) (select (select %s %s) %s))", m.T, env.heap(md), m.T, env.mapKey(k, ks)), Sort: "Bool"}
+	case "mdom", "mval": // mdom("map type", m, k) / mval(...): raw access with a canonical key k (Int)
+		argn(3)
+		ts, ok := x.Args[0].(*SStr)
+		if !ok {
+			env.fail("%s needs a map type string", x.Fn)
+		}
+		mt, err := e.resolveType(env.pkg, ts.V)
+		if err != nil {
+			env.fail("%v", err)
+		}
+		m := env.eval(x.Args[1])
+		k := env.eval(x.Args[2])
+		md, mv, _, vs := e.mapKeys(mt)
+		if x.Fn == "mdom" {
+			return TV{T: fmt.Sprintf("(select (select %s %s) %s)", env.heap(md), m.T, k.T), Sort: "Bool"}
+		}
+		return TV{T: fmt.Sprintf("(select (select %s %s) %s)", env.heap(mv), m.T, k.T), Sort: vs, Typ: mt.Underlying().(*types.Map).Elem()}
+	case "keyof": // keyof(s): canonical map key of a string
+		argn(1)
+		a := env.eval(x.Args[0])
+		if a.Sort != "Str" {
+			return a
+		}
+		return TV{T: app("skey", a.T), Sort: "Int"}
 	case "tag": // tag(v): dynamic type tag of an interface value
 		argn(1)
 		a := env.eval(x.Args[0])
